@@ -129,10 +129,46 @@ func runSide(ctx context.Context, r *vk.Run, p *world.Produced, steps []step, ad
 	if err != nil {
 		return nil, endState{}, "full node failed to start: " + err.Error(), false
 	}
+	var pair *types.SignedHeader // the forged header of a forged/key-swapped pair served over P2P
+	pairSeen := false
 	for i, st := range steps {
 		a := st.Act
 		if a.Kind == "p2p-adv" {
 			if st.AdvP2P == nil {
+				continue
+			}
+			if k := st.AdvP2P.Kind; k == "replay-forged" || k == "replay-keyswap" {
+				// the first of the two is served like any foreign header (after `Precede` genuine ones) and fixes the forged
+				// header; the second one - the same header and signature under the other public key - follows at the next
+				// position of the peer's store
+				next := f.P2PHeaderNext()
+				upTo := next - 1
+				if !pairSeen {
+					idx := next + st.Precede
+					if idx >= len(p.Heights) {
+						idx = len(p.Heights) - 1
+					}
+					upTo = idx - 1
+					pair = forgeHeader(p, idx, world.NewKeys("attacker"), nil, p.Agg.Genesis.ChainID, p.Keys.Addr)
+				}
+				pairSeen = true
+				var h *types.SignedHeader
+				if adv {
+					c := *pair
+					if k == "replay-keyswap" {
+						c.Signer = types.Signer{PubKey: p.Keys.Pub, Address: p.Keys.Addr}
+					}
+					h = &c
+				}
+				if upTo < next && h == nil {
+					continue
+				}
+				if err := f.AddP2PBatch(upTo, h); err != nil {
+					if err == world.ErrWatchdog {
+						return f, endState{}, "", true
+					}
+					return f, snapshot(ctx, f), fmt.Sprintf("step %d (foreign P2P header %s): %v", i, k, err), false
+				}
 				continue
 			}
 			// the peer serves `Precede` genuine headers and then the foreign one, all within one poll of the store
@@ -277,9 +313,11 @@ func runCase(r *vk.Run, p *world.Produced, c Case, steps []step, advs []Adv) {
 		// the same hash - it must not be what the mark rests on). Judged on the marks themselves, not on what the
 		// inclusion loop happened to record from them.
 		all := fb.DA.AllBlobs()
+		// (a blob "signed by the proposer": the proposer's own bytes, or any other encoding of the same item whose signature
+		// verifies under the proposer's key - publishing the proposer's signed item once more is not forging it)
 		sitsAt := func(blob []byte, dh uint64) bool {
 			for _, b := range all[dh] {
-				if bytes.Equal(b, blob) {
+				if bytes.Equal(b, blob) || sameSignedItem(b, blob, p.Keys) {
 					return true
 				}
 			}
@@ -349,11 +387,16 @@ func runCase(r *vk.Run, p *world.Produced, c Case, steps []step, advs []Adv) {
 	r.Eval(c.key(), len(advs) > 0 && sa.Height >= p.Spec.Initial, map[string]any{"case": c})
 }
 
-func genCase(rng *rand.Rand, p *world.Produced, id int, shape string, atk world.Keys) (Case, []step, []Adv) {
+// genCase draws one case. force, if not empty, is the kind of the first adversarial item(s) (one of ExtraKinds) and
+// ingress the path they take; the regular cases (force == "") draw everything.
+func genCase(rng *rand.Rand, p *world.Produced, id int, shape string, atk world.Keys, force, ingress string) (Case, []step, []Adv) {
 	n := len(p.Heights)
 	c := Case{ID: id, Shape: shape, Ingress: "da"}
 	if rng.Intn(5) == 0 {
 		c.Ingress = "p2p"
+	}
+	if ingress != "" {
+		c.Ingress = ingress
 	}
 	c.OmitDataOnDA = rng.Intn(4) == 0
 	// genuine traffic: mostly DA, some channel/p2p
@@ -417,6 +460,9 @@ func genCase(rng *rand.Rand, p *world.Produced, id int, shape string, atk world.
 	nk := 1 + rng.Intn(3)
 	for k := 0; k < nk; k++ {
 		kind := Kinds[rng.Intn(len(Kinds))]
+		if force != "" && k == 0 {
+			kind = force
+		}
 		target := rng.Intn(n + 1)
 		if target >= n {
 			target = n - 1
@@ -438,6 +484,17 @@ func genCase(rng *rand.Rand, p *world.Produced, id int, shape string, atk world.
 			}
 		}
 		if len(daIdx) == 0 {
+			continue
+		}
+		if ordered(kind) {
+			// cooperating items: the same DA height (adjacent), or the second at a later DA height
+			a := rng.Intn(len(daIdx))
+			b := a
+			if rng.Intn(2) == 0 {
+				b = a + rng.Intn(len(daIdx)-a)
+			}
+			steps[daIdx[a]].Adv = append(steps[daIdx[a]].Adv, items[0])
+			steps[daIdx[b]].Adv = append(steps[daIdx[b]].Adv, items[1])
 			continue
 		}
 		for _, it := range items {
@@ -469,8 +526,21 @@ func genCase(rng *rand.Rand, p *world.Produced, id int, shape string, atk world.
 				p2p = append(p2p, step{Act: world.Action{Kind: "p2p-adv"}, AdvP2P: &a, Precede: rng.Intn(3)})
 			}
 		}
+		last := -1
 		for _, st := range p2p {
 			pos := rng.Intn(len(steps) + 1)
+			if k := st.AdvP2P.Kind; k == "replay-forged" || k == "replay-keyswap" {
+				// the two of a pair keep their order: right behind one another, or with other steps in between
+				if last >= 0 {
+					pos = last + 1
+					if rng.Intn(2) == 0 {
+						pos += rng.Intn(len(steps) + 1 - pos)
+					}
+				}
+				last = pos
+			} else if last >= pos {
+				last++
+			}
 			steps = append(steps[:pos], append([]step{st}, steps[pos:]...)...)
 		}
 	}
@@ -505,6 +575,8 @@ func buildJobs(r *vk.Run) ([]job, error) {
 	id := 0
 	nChains := r.N(16, 150)
 	per := r.N(40, 150)
+	var chains []*world.Produced
+	var shapes []string
 	for ci := 0; ci < nChains; ci++ {
 		n := 3 + rng.Intn(6)
 		shape := ""
@@ -523,9 +595,32 @@ func buildJobs(r *vk.Run) ([]job, error) {
 			return nil, err
 		}
 		for k := 0; k < per; k++ {
-			c, steps, advs := genCase(rng, p, id, shape, atk)
+			c, steps, advs := genCase(rng, p, id, shape, atk, "", "")
 			id++
 			jobs = append(jobs, job{p, c, steps, advs})
+		}
+		chains = append(chains, p)
+		shapes = append(shapes, shape)
+	}
+	// cooperating items and hand-made encodings (ExtraKinds), from a stream of their own so that the cases above stay
+	// what they were: every kind on every chain; the forged/key-swapped header pairs through the DA layer and over P2P
+	xrng := r.Rand("extra-kinds")
+	for round := 0; round < r.N(1, 2); round++ {
+		for ci, p := range chains {
+			for _, kind := range ExtraKinds {
+				ways := []string{"da"}
+				if kind == "forged-then-keyswap" || kind == "keyswap-then-forged" {
+					ways = []string{"da", "p2p", "p2p"}
+				}
+				for _, via := range ways {
+					c, steps, advs := genCase(xrng, p, id, shapes[ci], atk, kind, via)
+					id++
+					if !contains(c.Kinds, kind) {
+						continue
+					}
+					jobs = append(jobs, job{p, c, steps, advs})
+				}
+			}
 		}
 	}
 	return jobs, nil
@@ -605,7 +700,7 @@ func child(args []string) int {
 // Run is the check entry point.
 func Run(r *vk.Run) {
 	world.Silence()
-	r.Rule = "differential runs of a real full node (all loops) on the same delivery schedule with and without adversarial items built without the proposer's private key: " + strings.Join(Kinds, ", ") + "; ingress DA (same DA height as genuine blobs, before or after them, or empty DA heights) and P2P header store; positions before/at/after the genuine item of the same height; chains with empty and non-empty blocks; optionally the genuine data never reaches DA (so a forged copy of it must not advance DA inclusion). End states (blocks, state, DA-included height, recorded DA heights, execution and SetFinal logs) must be equal, no loop may have terminated for DA-borne material, every stored header must verify under the harness's copy of the proposer key, no DA-included mark for foreign hashes; cases run in child processes (a process killed by adversarial bytes is a violation). Plus forged transaction data over P2P: a data item with the genuine metadata of block h and other / extra / fewer / reordered transactions sits in the P2P data store before the genuine header of h arrives (over P2P or DA), the genuine data follows over DA, optionally a clean restart in between: nothing the node applies may differ from the proposer's block (clause only-proposer-key; whether the node then still advances is recorded, not judged: the statement promises liveness for DA-borne material). Plus the header-only node: real go-header Store+Syncer behind subscriber/exchange doubles (clause light-node-store). non-trivial = at least one adversarial item and the genuine run applied at least one block; distinct by (chain shape, kinds, ingress, schedule)"
+	r.Rule = "differential runs of a real full node (all loops) on the same delivery schedule with and without adversarial items built without the proposer's private key: " + strings.Join(Kinds, ", ") + "; plus cooperating items and hand-made encodings, on every chain: " + strings.Join(ExtraKinds, ", ") + " (a self-consistent forgery and the same payload and signature carrying the proposer's public key, in both orders, adjacent or apart, over DA and - headers - over P2P; a genuine blob with a second occurrence of its embedded header/data field, which a merging decoder adds to the genuine fields); ingress DA (same DA height as genuine blobs, before or after them, or empty DA heights) and P2P header store; positions before/at/after the genuine item of the same height; chains with empty and non-empty blocks; optionally the genuine data never reaches DA (so a forged copy of it must not advance DA inclusion). End states (blocks, state, DA-included height, recorded DA heights, execution and SetFinal logs) must be equal, no loop may have terminated for DA-borne material, every stored header must verify under the harness's copy of the proposer key, no DA-included mark for foreign hashes; cases run in child processes (a process killed by adversarial bytes is a violation). Plus forged transaction data over P2P: a data item with the genuine metadata of block h and other / extra / fewer / reordered transactions sits in the P2P data store before the genuine header of h arrives (over P2P or DA), the genuine data follows over DA, optionally a clean restart in between: nothing the node applies may differ from the proposer's block (clause only-proposer-key; whether the node then still advances is recorded, not judged: the statement promises liveness for DA-borne material). Plus the header-only node: real go-header Store+Syncer behind subscriber/exchange doubles (clause light-node-store). non-trivial = at least one adversarial item and the genuine run applied at least one block; distinct by (chain shape, kinds, ingress, schedule)"
 	r.Assume("adversary has no access to the proposer's private key; items are delivered through the node's own DA scan / P2P store loops, not through libp2p gossip")
 	jobs, err := buildJobs(r)
 	if err != nil {
@@ -623,5 +718,14 @@ func Run(r *vk.Run) {
 }
 
 func commitmentOf(txs [][]byte) []byte { return monitorsCommitment(txs) }
+
+func contains(l []string, s string) bool {
+	for _, x := range l {
+		if x == s {
+			return true
+		}
+	}
+	return false
+}
 
 var _ = bytes.Equal
